@@ -167,6 +167,10 @@ func (p *Peer) DiscoverIP(timeout time.Duration) (string, error) {
 	return r.IP, err
 }
 
+// errInvalidHeader is returned by SendHeaders when the peer's answer contains a
+// header that fails validation against the chain it claims to extend.
+var errInvalidHeader = errors.New("peer sent invalid header")
+
 // SendHeaders requests up to n headers from p, starting from the supplied
 // index, which must be on the peer's best chain. The peer also returns the
 // number of remaining headers left to sync.
@@ -176,7 +180,7 @@ func (p *Peer) SendHeaders(cs consensus.State, maxHeaders uint64, timeout time.D
 	if err == nil {
 		for _, bh := range r.Headers {
 			if err := consensus.ValidateHeader(cs, bh); err != nil {
-				return nil, 0, fmt.Errorf("peer sent invalid header %v: %w", bh.ID(), err)
+				return nil, 0, fmt.Errorf("%w %v: %w", errInvalidHeader, bh.ID(), err)
 			}
 			cs = consensus.ApplyHeader(cs, bh, time.Time{})
 		}
